@@ -469,6 +469,9 @@ fn gen_msg_c07(rng: &mut Rng, tier: Tier) -> msg::MsgScn {
             _ => None,
         })
         .collect();
+    // a seeded dozen of them (the scenario holds one credential per kind of deviation)
+    let mut byz_creds = byz_creds;
+    rng.shuffle(&mut byz_creds);
     for (ci, names) in byz_creds.iter().take(12) {
         if names.is_empty() || !rng.chance(1, 2) {
             continue;
